@@ -114,13 +114,24 @@ def scene_is_clean(case):
 def build_labels(case, deleted=()):
     import sleap_io as sio
 
-    video = asset_video()
+    if case.get("videos") == "package":
+        # ground truth and predictions over the two videos of one package file (shared filename, different HDF5
+        # dataset), each side with its own Video objects as when two label files are loaded; frame indices may
+        # coincide across the videos
+        if "pkg" not in _ASSET:
+            from vlib import pkg
+
+            _ASSET["pkg"] = (pkg.load_videos(), pkg.load_videos())
+        vids_gt, vids_pr = _ASSET["pkg"]
+    else:
+        vids_gt = vids_pr = [asset_video()]
     n = case["n_nodes"]
     skel = sio.Skeleton(nodes=[f"n{i}" for i in range(n)])
     deleted = {tuple(d) for d in deleted}
     lf_gt, lf_pr = [], []
     for fpos, fr in enumerate(case["frames"]):
         gi = [sio.Instance.from_numpy(points_data=pose_arr(g), skeleton=skel) for g in fr["gt"]]
+        video = vids_gt[fr.get("video", 0)]
         lf_gt.append(sio.LabeledFrame(video=video, frame_idx=fr["idx"], instances=gi))
         if fr["has_pr_frame"]:
             pi = [
@@ -128,9 +139,9 @@ def build_labels(case, deleted=()):
                 for ppos, p in enumerate(fr["pr"])
                 if (fpos, ppos) not in deleted
             ]
-            lf_pr.append(sio.LabeledFrame(video=video, frame_idx=fr["idx"], instances=pi))
-    gt = sio.Labels(labeled_frames=lf_gt, videos=[video], skeletons=[skel])
-    pr = sio.Labels(labeled_frames=lf_pr, videos=[video], skeletons=[skel])
+            lf_pr.append(sio.LabeledFrame(video=vids_pr[fr.get("video", 0)], frame_idx=fr["idx"], instances=pi))
+    gt = sio.Labels(labeled_frames=lf_gt, videos=list(vids_gt), skeletons=[skel])
+    pr = sio.Labels(labeled_frames=lf_pr, videos=list(vids_pr), skeletons=[skel])
     return gt, pr
 
 
@@ -190,7 +201,11 @@ def evaluate(case):
         f"nodes={n}",
         "match_threshold=0" if case["match_threshold"] == 0 else "match_threshold>0",
         "oks_scale=None" if case["oks_scale"] is None else "oks_scale=scalar",
+        f"videos={case.get('videos', 'asset')}",
     )
+    fv = [(fr.get("video", 0), fr["idx"]) for fr in case["frames"]]
+    if len({i for _, i in fv}) < len(fv):
+        res.cls("frame-index-shared-by-two-videos")
     if any(g_pt is None for fr in paired for g in fr["gt"] for g_pt in g):
         res.cls("gt-has-missing-nodes")
     if any(not fr["has_pr_frame"] for fr in case["frames"]):
@@ -382,7 +397,15 @@ def strategy():
         kind = draw(st.sampled_from(KINDS))
         n = draw(st.sampled_from([2, 2, 3, 3, 4, 5, 6]))
         n_frames = draw(st.sampled_from([1, 1, 2, 2, 3, 4, 6]))
-        idxs = draw(st.lists(st.integers(0, 30), min_size=n_frames, max_size=n_frames, unique=True))
+        videos = draw(st.sampled_from(["asset", "asset", "package"]))
+        if videos == "package":
+            # two videos of one package file; small index range so that frame indices coincide across the videos
+            n_frames = max(2, n_frames)
+            vi = draw(st.lists(st.tuples(st.integers(0, 1), st.integers(0, 3)), min_size=n_frames, max_size=n_frames, unique=True))
+            vids, idxs = [v for v, _ in vi], [i for _, i in vi]
+        else:
+            idxs = draw(st.lists(st.integers(0, 30), min_size=n_frames, max_size=n_frames, unique=True))
+            vids = [0] * n_frames
         size = draw(st.sampled_from([4.0, 32.0, 128.0]))
         stddev = draw(st.sampled_from([0.025, 0.025, 0.05, 0.107, 0.2]))
         oks_scale = draw(st.sampled_from([None, None, None, size * size / 4, size * size]))
@@ -453,7 +476,7 @@ def strategy():
                 has_pr_frame = False
             elif kind != "perfect" and f > 0 and draw(st.sampled_from([False] * 7 + [True])):
                 has_pr_frame = False
-            frames.append({"idx": idxs[f], "gt": gts, "pr": prs, "has_pr_frame": has_pr_frame})
+            frames.append({"idx": idxs[f], "video": vids[f], "gt": gts, "pr": prs, "has_pr_frame": has_pr_frame})
         tv = st.one_of(st.sampled_from([0.0, 0.3, 0.5, 0.75, 0.9, 0.99]), st.floats(0.0, 0.99, allow_nan=False))
         mst = sorted(draw(st.lists(tv, min_size=1, max_size=6)))
         pv = st.one_of(st.sampled_from([0.25, 1.0, 2.0, 5.0, 10.0, size / 4, size]), st.floats(0.01, 300.0, allow_nan=False))
@@ -466,6 +489,7 @@ def strategy():
             delete = [c for c, fl in zip(cand, flags) if fl] or [cand[draw(st.integers(0, len(cand) - 1))]]
         return {
             "kind": kind,
+            "videos": videos,
             "n_nodes": n,
             "frames": frames,
             "oks_stddev": stddev,
